@@ -1,5 +1,5 @@
 ---- MODULE ValTest ----
-EXTENDS Val, Json
+EXTENDS NumText, Json
 VARIABLES blk, i
 File == ndJsonDeserialize("trace.ndjson")
 K == 64
@@ -9,5 +9,6 @@ Check == i = 0 \/ LET ev == File[i]
              want == CASE ev.op = "strtonum" -> StrToNum(ev.s)
                        [] ev.op = "inttostr" -> [s |-> IntNumToStr(ev.n)]
                        [] ev.op = "isindex" -> IsArrayIndex(ev.s)
+                       [] ev.op = "numtostr" -> [s |-> NumToStr(ev.n)]
          IN  want = ev.r \/ PrintT("VJSON " \o ToJson([i |-> i, ev |-> ev, want |-> want]))
 ====
